@@ -50,13 +50,16 @@ pub fn run(tier: Tier) -> i32 {
     let scratch = Scratch::new("c07");
     // (length, class)
     let mut lens: Vec<(usize, String)> = (0..=600).map(|l| (l, "small".to_string())).collect();
-    let ks: Vec<usize> = if tier.thorough() { (1..=8).collect() } else { vec![1, 2, 8] };
     let largest_flash_bytes = sut::devices().iter().map(|d| d.flash_words as usize * 2).max().unwrap_or(0);
-    rep.guard(largest_flash_bytes == 8 * 65536, "largest flash in the device table is expected to be 512 KiB");
+    rep.guard(largest_flash_bytes >= 2 * 65536, "largest flash in the device table is expected to be at least 128 KiB");
+    let kmax = largest_flash_bytes / 65536;
+    let ks: Vec<usize> = if tier.thorough() { (1..=kmax).collect() } else { vec![1, 2, kmax] };
     for k in ks.iter() {
         for delta in -17i64..=17 {
             let l = (*k as i64 * 65536 + delta) as usize;
-            if l <= largest_flash_bytes {
+            // (lengths up to 17 bytes beyond the largest flash are kept: they cost nothing and show
+            // that the last boundary is handled like the others)
+            if l <= largest_flash_bytes + 17 {
                 lens.push((l, format!("boundary-{}x64K", k)));
             }
         }
@@ -96,11 +99,11 @@ pub fn run(tier: Tier) -> i32 {
     rep.sample(|| json!({"writer": "eeprom", "len": 65537, "pattern": "position hash", "other_image_len": 3}));
     rep.sample(|| json!({"writer": "code", "len": largest_flash_bytes, "pattern": "position hash", "other_image_len": 0}));
     rep.assume("CRLF or LF line ends and whitespace-only lines are not records and are tolerated");
-    rep.assume("lengths above the largest flash in the device table (512 KiB) are outside the statement and are not generated");
+    rep.assume("lengths more than 17 bytes above the largest flash in the device table are outside the statement and are not generated");
     let coverage = cov(json!({
         "evaluations": evals.load(Ordering::Relaxed),
         "distinct_nontrivial": distinct_lengths.len() - 1,
-        "rule": "every image length 0..600 and every length within +-17 of k*64KiB (quick k in {1,2,8}, thorough k = 1..8) up to the largest flash in the device table; contents = position-hash pattern (a misplaced byte is seen), all-00, all-FF; both writers, the other image empty and non-empty; each written file is decoded by the harness's strict reader and compared with the image address by address. distinct_nontrivial = distinct non-zero image lengths",
+        "rule": "every image length 0..600 and every length within +-17 of k*64KiB (quick k in {1,2,kmax}, thorough k = 1..kmax, kmax = largest flash / 64 KiB) up to the largest flash in the device table; contents = position-hash pattern (a misplaced byte is seen), all-00, all-FF; both writers, the other image empty and non-empty; each written file is decoded by the harness's strict reader and compared with the image address by address. distinct_nontrivial = distinct non-zero image lengths",
         "exhaustive": true,
         "distinct_lengths": distinct_lengths.len(),
         "image_bytes_compared": bytes_checked.load(Ordering::Relaxed),
